@@ -178,6 +178,10 @@ func buildSource(c *c14ref.Chain) (string, *c14ref.Lines, int) {
 					stmt = fmt.Sprintf("for (var v of mkIter(%d, f%d)) { v; }", i, nx)
 				case "forofbody":
 					stmt = fmt.Sprintf("for (var v of mkIter(%d, null)) { f%d(); }", i, nx)
+				case "destruct":
+					stmt = fmt.Sprintf("var [d] = mkIter(%d, f%d);", i, nx)
+				case "spread":
+					stmt = fmt.Sprintf("[...mkIter(%d, f%d)];", i, nx)
 				case "gen":
 					stmt = fmt.Sprintf("gen1(f%d).next();", nx)
 				case "eval":
